@@ -520,7 +520,7 @@ func runC18(c *core.Ctx) {
 				}
 			}
 		}
-		n := c.N(300, 60000)
+		n := c.N(300, 400000)
 		for k := int64(0); k < n; k++ {
 			idx++
 			if !c.Mine(mon, idx) {
@@ -575,7 +575,7 @@ func runC18(c *core.Ctx) {
 	}
 
 	// ---- streams
-	m := c.N(20000, 1500000)
+	m := c.N(20000, 15000000)
 	for i := int64(0); i < m; i++ {
 		if c.Mine("stream", i) {
 			c18Stream(c, c.RNG("stream", i), types)
@@ -620,7 +620,7 @@ func runC18(c *core.Ctx) {
 	}
 
 	// ---- multicast keys (TS005 §4)
-	k := c.N(3000, 200000)
+	k := c.N(3000, 3000000)
 	for i := int64(0); i < k; i++ {
 		if !c.Mine("keys", i) {
 			continue
